@@ -157,6 +157,26 @@ def run(cap):
                     r2 = g12up[sel] / region.g12.centre[sel]
                     upd("disp:sign+size g_12~e_x.e_y (|tan beta|>=0.3)", np.abs(r1 - 1.0), region, "centre")
                     upd("disp:sign+size g12~grad(x).grad(y) (|tan beta|>=0.3)", np.abs(r2 - 1.0), region, "centre")
+        # ---- (d') the same at the interior y-faces: e_x from the corner points, e_y from centres ----
+        if not orth and region.ny >= 2 and not np.all(region.g_11.ylow == 0):
+            dxy = region.dx.ylow[:, 1:-1]
+            fxR = (region.Rxy.corners[1:, 1:-1] - region.Rxy.corners[:-1, 1:-1]) / dxy
+            fxZ = (region.Zxy.corners[1:, 1:-1] - region.Zxy.corners[:-1, 1:-1]) / dxy
+            fyR = (region.Rxy.centre[:, 1:] - region.Rxy.centre[:, :-1]) / dy[:, 1:]
+            fyZ = (region.Zxy.centre[:, 1:] - region.Zxy.centre[:, :-1]) / dy[:, 1:]
+            Ry, Zy = region.Rxy.ylow[:, 1:-1], region.Zxy.ylow[:, 1:-1]
+            gR, gZ = oracles.fd_grad(psi, Ry, Zy, h=1e-4 * L)
+            en = np.hypot(fxR, fxZ)
+            cosb = np.abs(fxR * gR + fxZ * gZ) / (en * np.hypot(gR, gZ))
+            tanb = np.sqrt(np.maximum(0, 1 - cosb**2)) / cosb
+            oky = ~(xc[:, 1:] | xc[:, :-1])
+            sel = oky & (tanb >= 0.3)
+            if sel.any():
+                g12m = fxR * fyR + fxZ * fyZ
+                D = fxR * fyZ - fxZ * fyR
+                g12up = (fyZ / D) * (-fxZ / D) + (-fyR / D) * (fxR / D)
+                upd("disp:sign+size g_12~e_x.e_y at ylow (|tan beta|>=0.3)", np.abs(g12m[sel] / region.g_12.ylow[:, 1:-1][sel] - 1.0), region, "ylow")
+                upd("disp:sign+size g12~grad(x).grad(y) at ylow (|tan beta|>=0.3)", np.abs(g12up[sel] / region.g12.ylow[:, 1:-1][sel] - 1.0), region, "ylow")
         # ---- (e) Simpson: integral of g_23/g_33 over the cell = zShift difference ------
         if not np.all(region.g_33.ylow == 0):
             nuy = region.g_23.ylow / region.g_33.ylow
@@ -193,7 +213,7 @@ def run(cap):
         "disp:g_11": 0.35,
         "disp:hy": 0.2,
         "disp:e_x.e_y~0": 0.4,
-        "disp:sign+size": 0.25,
+        "disp:sign+size": 0.4,
         "simpson:sign": 0.0,
         "simpson:size": 0.4,
         "simpson:g_23=0": 0.0,
